@@ -272,6 +272,8 @@ func c15Specs(tier string) []*h.SeqSpec {
 		{"sessions", sessions, nil},
 		{"paged-referrers", func(w *h.World) {
 			populate(w)
+			// a second artifact of the same type: the filtered list is paged as well
+			mustStatus(w.PutManifest("r", f.Items["A3"].Dig, mtIdx, f.Items["A3"].Data), 201)
 			w.Referrers("r", f.Items["I1"].Dig, "")
 		}, func(c *config.Config) { c.API.Referrer.Limit = one }},
 	}
@@ -291,6 +293,37 @@ func c15Specs(tier string) []*h.SeqSpec {
 			sessID := ""
 			if st.name == "sessions" {
 				sessID = "\x00SESS"
+			}
+			if st.name == "paged-referrers" {
+				// continuation requests that name the *current* response digest (taken from a Link header), for every page number
+				// around the page count and for filters that were and were not requested before
+				for _, pg := range []string{"-1", "0", "1", "2", "3", "4", "99", "x"} {
+					for _, at := range []string{"", "application/x.test", "never/requested"} {
+						pg, at := pg, at
+						label := fmt.Sprintf("GET referrers ?cache=<current digest>&page=%s artifactType=%q", pg, at)
+						rq := c15Req{label: label, name: "r"}
+						ops = append(ops, h.Op{Name: label, Do: func(w *h.World) []h.Violation {
+							first := w.Do(h.Req{Method: "GET", Path: "/v2/r/referrers/" + f.Items["I1"].Dig})
+							cache := ""
+							if u, err := url.Parse(h.NextLink(first)); err == nil {
+								cache = u.Query().Get("cache")
+							}
+							if cache == "" {
+								return nil
+							}
+							q := url.Values{}
+							q.Set("cache", cache)
+							q.Set("page", pg)
+							if at != "" {
+								q.Set("artifactType", at)
+							}
+							rq.req = h.Req{Method: "GET", Path: "/v2/r/referrers/" + f.Items["I1"].Dig, Query: q.Encode()}
+							logStart := vos.LogLen()
+							r := w.Do(rq.req)
+							return c15Judge(w, rq, r, logStart)
+						}})
+					}
+				}
 			}
 			for _, rq := range c15Grammar(f, tier, "", sessID) {
 				rq := rq
